@@ -789,6 +789,19 @@ emitCollectIntermedSymes(Stab stab, Foam foam)
  ****************************************************************************/
 
 /*
+ * Close an output file.  A failed write, flush or close is an error:
+ * a successful exit must mean that every requested output is complete.
+ */
+local void
+emitClose(FILE *fout, FileName fn)
+{
+	Bool	bad = ferror(fout) != 0;
+
+	if (fclose(fout) != 0) bad = true;
+	if (bad) comsgFatal(NULL, ALDOR_F_CantWrite, fnameUnparseStatic(fn));
+}
+
+/*
  * Emit the .ai file of included source.
  */
 void
@@ -801,7 +814,7 @@ emitTheIncluded(EmitInfo finfo, SrcLineList sll)
 	emitInfoInUse(finfo, FTYPENO_INCLUDED) = true;
 	fout = fileWrOpen(fn);
 	inclWrite(fout, sll);
-	fclose(fout);
+	emitClose(fout, fn);
 	emitInfoInUse(finfo, FTYPENO_INCLUDED) = false;
 	emitSetDone(FTYPENO_INCLUDED);
 }
@@ -819,7 +832,7 @@ emitTheAbSyn(EmitInfo finfo, AbSyn absyn)
 	emitInfoInUse(finfo, FTYPENO_ABSYN) = true;
 	fout = fileWrOpen(fn);
 	abWrSExpr(fout, absyn, emitSxIoMode);
-	fclose(fout);
+	emitClose(fout, fn);
 	emitInfoInUse(finfo, FTYPENO_ABSYN) = false;
 	emitSetDone(FTYPENO_ABSYN);
 }
@@ -837,7 +850,7 @@ emitTheOldAbSyn(EmitInfo finfo, AbSyn absyn)
 	emitInfoInUse(finfo, FTYPENO_OLDABSYN) = true;
 	fout = fileWrOpen(fn);
 	abWrSExpr(fout, absyn, emitSxIoMode);
-	fclose(fout);
+	emitClose(fout, fn);
 	emitInfoInUse(finfo, FTYPENO_OLDABSYN) = false;
 	emitSetDone(FTYPENO_OLDABSYN);
 }
@@ -940,7 +953,7 @@ emitTheSymbolExpr(EmitInfo finfo, SymeList symes, AbSyn macs)
 	listFree(AbSyn)(tu->typesOther);
 	stoFree(tu);
 #endif
-	fclose(fout);
+	emitClose(fout, fn);
 	emitInfoInUse(finfo, FTYPENO_SYMEEXPR) = false;
 	emitSetDone(FTYPENO_SYMEEXPR);
 }
@@ -959,7 +972,7 @@ emitTheAnnotatedAbSyn(EmitInfo finfo, SExpr whole)
 	fout = fileWrOpen(fn);
 	sxiWrite(fout, whole, SXRW_Default);
 
-	fclose(fout);
+	emitClose(fout, fn);
 	emitInfoInUse(finfo, FTYPENO_ANNABS) = false;
 	emitSetDone(FTYPENO_ANNABS);
 }
@@ -978,7 +991,7 @@ emitTheFoamExpr(EmitInfo finfo, Foam foam)
 	emitInfoInUse(finfo, FTYPENO_FOAMEXPR) = true;
 	fout = fileWrOpen(fn);
 	foamWrSExpr(fout, foam, emitSxIoMode);
-	fclose(fout);
+	emitClose(fout, fn);
 	emitInfoInUse(finfo, FTYPENO_FOAMEXPR) = false;
 	emitSetDone(FTYPENO_FOAMEXPR);
 }
@@ -1017,7 +1030,7 @@ emitTheLisp(EmitInfo finfo, SExpr lispCode)
 		fprintf(fout, "\n");
 		sxiWrite(fout, sxCar(lispCode), glWriteMode | emitSxIoMode);
 	}
-	fclose(fout);
+	emitClose(fout, fn);
 	emitInfoInUse(finfo, FTYPENO_LISP) = false;
 	emitSetDone(FTYPENO_LISP);
 }
@@ -1109,7 +1122,7 @@ emitTheC(EmitInfo finfo, CCodeList cco)
 					fprintf(fout, "\n#include \"%s\"",
 						fnameUnparseStatic(hfn));
 				ccoPrint(fout, car(cco), ccmode);
-				fclose(fout);
+				emitClose(fout, fn);
 			}
 		}
 		else
@@ -1119,7 +1132,7 @@ emitTheC(EmitInfo finfo, CCodeList cco)
 	emitInfoInUse(finfo, FTYPENO_C) = false;
 	emitSetDone(FTYPENO_LISP);
 	if (hout) {
-		fclose(hout);
+		emitClose(hout, hfn);
 		emitInfoInUse(finfo, FTYPENO_H) = false;
 		emitSetDone(FTYPENO_H);
 	}
@@ -1211,7 +1224,7 @@ emitOneJavaFile(EmitInfo finfo, JavaCode javaFile)
 	jcoWrite(ctxt, javaFile);
 	jcoPContextFree(ctxt);
 	ostreamClose(ostream);
-	fclose(fout);
+	emitClose(fout, fn);
 }
 
 local FileName
